@@ -195,6 +195,14 @@ def run(ctx, res):
             if all(isinstance(s, str) for s in sers) and sers:
                 s1 = "".join(sers)
                 row["s1"] = s1
+                if kind == "generated":
+                    # lines already in the library's own form come out as they went in, whatever else was parsed or written before
+                    from . import c09 as C09
+                    lin, lout = C09.logical_lines(text), set(C09.logical_lines(s1))
+                    for l in T.SELF_CANONICAL:
+                        if l in lin and l not in lout and not any(getattr(c, "errors", None) for r_ in comps1 for c in r_.walk()):
+                            res.fail("C01 first parse: a date-time line in the library's own form is written differently",
+                                     text[:1500], observed=[x for x in lout if x.split(":")[0] == l.split(":")[0]][:4], expected=l)
                 if kind in ("fixture", "generated"):
                     # inline attachments: the bytes a BINARY line carries are the bytes the first serialisation carries
                     pin, pout = binary_payloads(text), binary_payloads(s1)
